@@ -97,15 +97,18 @@ macro_rules! it_typed {
 macro_rules! nexts_t {
     ($it:expr, $pos:expr) => {{
         let mut it = $it;
+        let mut p = vec![];
         for _ in 0..$pos {
-            it.next();
+            if let Some(x) = it.next() {
+                p.push(x.to_raw());
+            }
         }
         let mut v = vec![];
         while let Some(x) = it.next() {
             v.push(x.to_raw());
         }
         let fused = it.next().is_none() && it.next().is_none();
-        (v, fused)
+        (v, fused, p)
     }};
 }
 
@@ -204,10 +207,29 @@ impl<T: Elem> USet for W64<T> {
     fn header(&self) -> (usize, Option<(usize, usize, u64)>) {
         self.0.verif_inner().verif_header()
     }
-    fn nexts(&self, which: It, pos: usize) -> (Vec<u64>, bool) {
-        it_typed!(self, which, pos, nexts_t)
+    fn nexts(&self, which: It, pos: usize) -> (Vec<u64>, bool, Vec<u64>) {
+        match which {
+            It::Iter => nexts_t!(self.0.iter(), pos),
+            It::Into => nexts_t!(self.0.clone().into_iter(), pos),
+            It::IntoClone => {
+                let mut it = self.0.clone().into_iter();
+                let mut p = vec![];
+                for _ in 0..pos {
+                    if let Some(x) = it.next() {
+                        p.push(x.to_raw());
+                    }
+                }
+                let c = it.clone();
+                let a = nexts_t!(it, 0);
+                let b = nexts_t!(c, 0);
+                let (mut sa, mut sb) = (a.0.clone(), b.0.clone());
+                sa.sort();
+                sb.sort();
+                (b.0, a.1 && b.1 && sa == sb, p)
+            }
+        }
     }
-    fn shortcut(&self, which: It, pos: usize, kind: &str) -> Option<u64> {
+    fn shortcut(&self, which: It, pos: usize, kind: &str) -> (Option<u64>, Option<Vec<u64>>) {
         macro_rules! sc_t {
             ($it:expr, $p:expr) => {{
                 let mut it = $it;
@@ -240,7 +262,26 @@ impl<T: Elem> USet for W64<T> {
                 }
             }};
         }
-        it_typed!(self, which, pos, sc_t)
+        match which {
+            It::Iter => (sc_t!(self.0.iter(), pos), None),
+            It::Into => {
+                let mut it = self.0.clone().into_iter();
+                for _ in 0..pos {
+                    it.next();
+                }
+                let plain: Vec<u64> = it.clone().map(|x| x.to_raw()).collect();
+                (sc_t!(it, 0), Some(plain))
+            }
+            It::IntoClone => {
+                let mut it = self.0.clone().into_iter();
+                for _ in 0..pos {
+                    it.next();
+                }
+                let c = it.clone();
+                let plain: Vec<u64> = it.map(|x| x.to_raw()).collect();
+                (sc_t!(c, 0), Some(plain))
+            }
+        }
     }
     fn union_ref(a: &Self, b: &Self) -> Self {
         W64(&a.0 | &b.0)
@@ -277,15 +318,18 @@ pub struct WUsize(pub SetUsize);
 macro_rules! nexts_u {
     ($it:expr, $pos:expr) => {{
         let mut it = $it;
+        let mut p = vec![];
         for _ in 0..$pos {
-            it.next();
+            if let Some(x) = it.next() {
+                p.push(x as u64);
+            }
         }
         let mut v = vec![];
         while let Some(x) = it.next() {
             v.push(x as u64);
         }
         let fused = it.next().is_none() && it.next().is_none();
-        (v, fused)
+        (v, fused, p)
     }};
 }
 macro_rules! sc_u {
@@ -394,16 +438,32 @@ impl USet for WUsize {
     fn header(&self) -> (usize, Option<(usize, usize, u64)>) {
         self.0.verif_inner().verif_header()
     }
-    fn nexts(&self, which: It, pos: usize) -> (Vec<u64>, bool) {
+    fn nexts(&self, which: It, pos: usize) -> (Vec<u64>, bool, Vec<u64>) {
         match which {
             It::Iter => nexts_u!(self.0.iter(), pos),
             _ => nexts_u!(self.0.clone().into_iter(), pos),
         }
     }
-    fn shortcut(&self, which: It, pos: usize, kind: &str) -> Option<u64> {
+    fn shortcut(&self, which: It, pos: usize, kind: &str) -> (Option<u64>, Option<Vec<u64>>) {
         match which {
-            It::Iter => sc_u!(self.0.iter(), pos, kind),
-            _ => sc_u!(self.0.clone().into_iter(), pos, kind),
+            It::Iter => (sc_u!(self.0.iter(), pos, kind), None),
+            // `setusize::IntoIter` is not `Clone`: order-dependent answers cannot be compared with plain iteration of
+            // the same consuming iterator, they are taken from the borrowed iterator instead
+            _ if matches!(kind, "last" | "nth" | "skip" | "find" | "fold") => (sc_u!(self.0.iter(), pos, kind), None),
+            _ => {
+                // order-independent kinds: compare with the members not yet yielded by this very iterator
+                let all: Vec<u64> = self.0.iter().map(|x| x as u64).collect();
+                let mut it = self.0.clone().into_iter();
+                let mut left = all;
+                for _ in 0..pos {
+                    if let Some(x) = it.next() {
+                        if let Some(k) = left.iter().position(|&y| y == x as u64) {
+                            left.remove(k);
+                        }
+                    }
+                }
+                (sc_u!(it, 0, kind), Some(left))
+            }
         }
     }
     fn union_ref(a: &Self, b: &Self) -> Self {
